@@ -399,7 +399,16 @@ def r2(ctx: Ctx, roles) -> None:
     for q, htype, want in table:
         fn = ctx.repo.func("connection", q)
         hs = [n for n in own_nodes(fn.node) if isinstance(n, ast.ExceptHandler) and n.type is not None and htype in norm(n.type)]
-        ctx.ob("C09.R2", fn, f"{htype} handler present", len(hs) >= 1, f"no `except {htype}` in {q}")
+        if not hs:
+            # the conversion may have been moved to the (only) caller, around the call of this function
+            target = fn
+            for caller in ctx.repo.funcs_in("connection"):
+                for t in [x for x in own_nodes(caller.node) if isinstance(x, ast.Try)]:
+                    if any(isinstance(c, ast.Call) and target in res.callees(caller, c).funcs for b in t.body for c in ast.walk(b)):
+                        hh = [h for h in t.handlers if h.type is not None and htype in norm(h.type)]
+                        if hh:
+                            fn, hs = caller, hh
+        ctx.ob("C09.R2", fn, f"{htype} handler present", len(hs) >= 1, f"no `except {htype}` in {q} (nor around its call)")
         for h in hs:
             g = cfg_of(ctx, fn)
             hn = [n for n in g.reachable() if n.kind == "handler" and n.ast is h]
